@@ -53,6 +53,7 @@ BOUNDS = {
     "thorough": {"history_depth": "fixpoint", "faults": "1 fault at every call x every mode; 2 faults (die after a failed call)", "constructors": "2 threads: all interleavings; 3 threads: bound 2"},
 }
 READY = True
+PIN_CPUS = True
 
 _PROC = {}
 
